@@ -18,7 +18,7 @@ RULES = {
     'C02.R5': 'right operand unchanged: taken by shared reference, never written through; the only interior-mutable field (polytope_cache) is scratch, cleared before use and before return',
 }
 WITNESSES = ['C02OperandBehindSharedRef', 'C02ComposeBorrowsOperand', 'C02ScratchCacheIsPrivate']  # thorough tier: compile_fail witnesses in /verif/witness
-FLOORS = {'C02.R6': 6, 'C02.R1': 4, 'C02.R2': 4, 'C02.R3': 7, 'C02.R4': 7, 'C02.R5': 6}
+FLOORS = {'C02.R6': 7, 'C02.R1': 4, 'C02.R2': 4, 'C02.R3': 7, 'C02.R4': 7, 'C02.R5': 6}
 EXPLANATION = ('R1-R3 give a node-by-node simulation: the copy of g under terminal t routes x exactly as g routes T_t(x) and returns g(T_t(x)); missing children of the '
                'operand are missing in the copy (definedness). Surviving nodes keep their indices because the only writes are in-place updates of terminals and Slab insertions.')
 DOES_NOT_DECIDE = 'floating-point rounding near a hyperplane'
